@@ -284,7 +284,7 @@ int main(void) {
     int i;
     dctx = ZSTD_createDCtx();
     for (i = 0; i < NCTX; i++) refCD[i] = -1;
-    setvbuf(stdout, NULL, _IOFBF, 1 << 16);
+    setvbuf(stdout, NULL, _IOLBF, 1 << 16);
     while (fscanf(in, "%63s", cmd) == 1) {
         if (!strcmp(cmd, "blobfile")) {
             char path[1024]; FILE* f; long n;
